@@ -228,13 +228,18 @@ def run_shard(shard):
             b = B.Chain([B.Affine(jr.normal(k[0], (dim,)), 2.5), B.LeakyTanh(2.0, (dim,)), B.Affine(jnp.zeros(dim), jnp.asarray(0.4))])
         elif c["which"] in ("planar_big_tanh", "planar_big_leaky"):
             ns = None if c["which"].endswith("tanh") else 0.3
-            def big(kk):
+            def big(kk, force=None):
                 pl = B.Planar(kk, dim=dim, negative_slope=ns)
                 w = 1.6 * jr.normal(jr.fold_in(kk, 1), (dim,))
                 u = 1.6 * jr.normal(jr.fold_in(kk, 2), (dim,))
+                if force is not None:
+                    # the regimes in which the projection of u matters, by construction rather than by luck of the draw:
+                    # |w| >= 1.8 with w.u = +3 (first layer) / w.u = -6 (second layer)
+                    w = w * jnp.maximum(1.0, 1.8 / jnp.linalg.norm(w))
+                    u = u + (force - jnp.dot(w, u)) * w / jnp.dot(w, w)
                 u = jnp.where(jnp.dot(w, u) < -20.0, -u, u)  # keep w.u representable (DESIGN 4/C11)
                 return eqx.tree_at(lambda p_: p_.params, pl, jnp.concatenate([w, u, 0.5 * jr.normal(jr.fold_in(kk, 3), (1,))]))
-            b = B.Invert(B.Chain([big(k[0]), big(k[1])]))
+            b = B.Invert(B.Chain([big(k[0], 3.0), big(k[1], -6.0)]))
         elif c["which"] == "bnaf":
             b = B.BlockAutoregressiveNetwork(k[0], dim=dim, depth=c["depth"], block_dim=2)
         else:
